@@ -138,7 +138,28 @@ fn observe<B: Conv>(c: &C) -> String {
 }
 
 fn write_line(ty: Ty, x: &TRec) -> Vec<u8> {
-    fn via<B: std::fmt::Display + bed_utils::bed::BEDLike>(b: &B) -> Vec<u8> { let mut out = vec![]; Writer::new(&mut out).write_record(b).unwrap(); out }
+    // the sink is a plain Vec or, two times out of three, a sink that accepts 1..5 bytes per `write` call and answers some
+    // calls with `Interrupted` (both legal for `io::Write`): what arrives must be the same bytes
+    struct Chunky { out: Vec<u8>, k: usize, calls: usize }
+    impl std::io::Write for Chunky {
+        fn write(&mut self, buf: &[u8]) -> std::io::Result<usize> {
+            self.calls += 1;
+            if self.k == 0 { self.out.extend_from_slice(buf); return Ok(buf.len()); }
+            if (self.calls + self.k) % 5 == 2 { return Err(std::io::Error::new(std::io::ErrorKind::Interrupted, "interrupted")); }
+            let n = buf.len().min(1 + (self.calls * 7 + self.k) % 5);
+            self.out.extend_from_slice(&buf[..n]);
+            Ok(n)
+        }
+        fn flush(&mut self) -> std::io::Result<()> { Ok(()) }
+    }
+    thread_local! { static SINK: std::cell::Cell<usize> = std::cell::Cell::new(0); }
+    fn via<B: std::fmt::Display + bed_utils::bed::BEDLike>(b: &B) -> Vec<u8> {
+        let k = SINK.with(|c| { let v = c.get(); c.set(v + 1); v });
+        let mut sink = Chunky { out: vec![], k: if k % 3 == 0 { 0 } else { k }, calls: 0 };
+        // an error or a panic of the Writer leaves what it has written so far: the line then reads back wrong
+        let _ = std::panic::catch_unwind(std::panic::AssertUnwindSafe(|| { let mut wr = Writer::new(&mut sink); let _ = wr.write_record(b); }));
+        sink.out
+    }
     let text = to_text(ty, x);
     // the Writer is exercised with the real record type; its output must be `to_string() + "\n"`
     let real = match ty {
